@@ -181,7 +181,7 @@ def run(db, chk):
             raise AnalysisBroken("C15: basin_graph record missing in %s" % uname)
         rec = rec[0]
         nbad = {"K1": 0, "K2": 0}
-        for nb in range(2, nmax + 1):
+        for nb in (range(2, nmax + 1) if chk.want("C15-K1", "C15-K2") else ()):
             for es in connected_graphs(nb):
                 for ws in itertools.product(wset, repeat=len(es)):
                     edges = [(a, b, w) for (a, b), w in zip(es, ws)]
@@ -226,7 +226,7 @@ def run(db, chk):
             raise AnalysisBroken("C15-K4: basin_graph::m_max_low_degree not found (the large-degree path cannot "
                                  "be reached within the bound any more)")
         nbad4 = 0
-        for thr in ((2, 3) if chk.tier == "thorough" else (2,)):
+        for thr in (((2, 3) if chk.tier == "thorough" else (2,)) if chk.want("C15-K4") else ()):
             for nb in range(2, nmax + 1):
                 for es in connected_graphs(nb):
                     if thr == 2 and nb == 4 and len(es) == 6:
@@ -254,7 +254,8 @@ def run(db, chk):
                                    % (uname, thr, list(es), list(ws)), not bad, where=fns["compute_tree_boruvka"].ploc,
                                    function=fns["compute_tree_boruvka"].bn, construct="boruvka-large-degree",
                                    detail="; ".join(bad[:2]), sample=(n_sc % 199 == 1), extra={"unit": uname})
-        n_sc += connect_rule(db, chk, uname, fns, rec)
+        if chk.want("C15-K3"):
+            n_sc += connect_rule(db, chk, uname, fns, rec)
     chk.absorb(db, "C09", {"C09-P2"}, "C15-K5", "every member of the basin graph that persists between updates is "
                "reset before it is read (shared with C09-P2): root, edges, tree and scratch of a previous update "
                "cannot leak into the next one", pred=lambda o: "basin_graph" in o["instance"], min_instances=20)
@@ -348,6 +349,8 @@ def connect_rule(db, chk, uname, fns, rec):
                             return PyVec(list(order))
                         if nm == "grid":
                             return Sym("grid", "g")
+                        if nm in ("nodes_status", "nodes_status_impl"):
+                            return 0 if args else PyVec([0] * n)      # grid statuses: all core
                         if nm == "is_masked":
                             return False
                         if nm == "is_base_level":
